@@ -56,7 +56,22 @@ func c09Stop() {
 
 func c09Start() {
 	var err error
-	c09Srv, err = busStart("R", c09Token, nil)
+	// the instance runs on a store file that already has its root node but no signing key (a file written by a release
+	// before the key column existed, or whose key was cleared): the key has to be made at this start, like on a new file
+	first, err := busStart("R", c09Token, nil)
+	if err != nil {
+		panic("C09: " + err.Error())
+	}
+	first.halt()
+	if db0, e := sql.Open("sqlite", first.opts.StoreFile); e == nil {
+		if _, e = db0.Exec("UPDATE meta SET jwt_key = NULL"); e != nil {
+			panic("C09: clearing the key: " + e.Error())
+		}
+		db0.Close()
+	} else {
+		panic("C09: " + e.Error())
+	}
+	c09Srv, err = busStartOpts(first.opts, nil)
 	if err != nil {
 		panic("C09: " + err.Error())
 	}
